@@ -368,9 +368,9 @@ func winModel() *mc.Model {
 }
 
 func runC18(c *Ctx) {
-	depth := c.Pick(6, 8)
+	depth := c.Pick(6, 7)
 	for _, k := range c18Kinds() {
-		c.runBFS(c18Model(k), mc.BFSOptions{MaxDepth: depth, MaxStates: 600000})
+		c.runBFS(c18Model(k), mc.BFSOptions{MaxDepth: depth, MaxStates: c.Pick(600000, 4000000)})
 	}
 	c.runBFS(winModel(), mc.BFSOptions{MaxDepth: c.Pick(4, 5), MaxStates: 600000})
 }
